@@ -21,7 +21,7 @@ def newAppliesB (r : BErr) (f : Frame) : Bool :=
   | .outOfOrder => !f.start || !f.idLast
   | _ => false
 
-def minLenB : Kind → Nat
+def minLen : Kind → Nat
   | .bootloaderHello | .programmerHello | .ack | .gatewayDiscover => 4
   | .startFirmwareUpgrade | .startConfigUpgrade => 8
   | .data => 6
@@ -32,27 +32,27 @@ def minLenB : Kind → Nat
   | .message => 14
   | .bcmAnimate => 11
 
-def bcmLenB (tag : UInt8) : Option Nat :=
+def bcmLen (tag : UInt8) : Option Nat :=
   if tag = 0 ∨ tag = 1 then some 2 else if tag = 2 then some 4 else if tag = 3 ∨ tag = 4 then some 5
   else if tag = 5 then some 6 else none
 
-def requiredLenB (k : Kind) (d : List UInt8) : Option Nat :=
+def requiredLen (k : Kind) (d : List UInt8) : Option Nat :=
   match k with
   | .data => match d[4]?, d[5]? with
     | some h, some l => some ((be16 h l).toNat + 6)
     | _, _ => none
   | .bcmChange => match d[5]? with
-    | some t => (bcmLenB t).map (· + 5)
+    | some t => (bcmLen t).map (· + 5)
     | none => none
   | .bcmAnimate => match d[9]? with
-    | some t => (bcmLenB t).map (· + 9)
+    | some t => (bcmLen t).map (· + 9)
     | none => none
-  | k => some (minLenB k)
+  | k => some (minLen k)
 
 def unknownTagB (k : Kind) (d : List UInt8) : Bool :=
   match k with
-  | .bcmChange => match d[5]? with | some t => (bcmLenB t).isNone | none => false
-  | .bcmAnimate => match d[9]? with | some t => (bcmLenB t).isNone | none => false
+  | .bcmChange => match d[5]? with | some t => (bcmLen t).isNone | none => false
+  | .bcmAnimate => match d[9]? with | some t => (bcmLen t).isNone | none => false
   | .relaySet => match d[5]? with | some t => decide (4 < t.toNat) | none => false
   | .message => match d[6]?, d[7]?, d[8]?, d[9]?, d[10]? with
     | some t0, some t1, some t2, some t3, some v =>
@@ -69,8 +69,8 @@ def codeOf (d : List UInt8) : Option UInt16 :=
 /-- Bool form of `CApplies` (C05) -/
 def cappliesB (r : CErr) (k : Kind) (p : Packet) : Bool :=
   match r with
-  | .wrongSize => decide (p.data.length < minLenB k) ||
-      (match requiredLenB k p.data with | some n => n != p.data.length | none => false)
+  | .wrongSize => decide (p.data.length < minLen k) ||
+      (match requiredLen k p.data with | some n => n != p.data.length | none => false)
   | .wrongType => p.isError
   | .wrongEventType => match codeOf p.data with | some c => c != k.code | none => false
   | .unknownEnumVariant => unknownTagB k p.data
